@@ -14,15 +14,35 @@ use std::panic::{AssertUnwindSafe, catch_unwind};
 use vharness::gen_::Rng;
 use vharness::*;
 
-#[derive(Clone, PartialEq, Eq, Hash, Debug)]
+/// Version set and package name types with a lawful but deliberately coarse `Hash` (3 resp. 2 distinct
+/// hash values): the pool must tell values apart by `Eq`, whatever the quality of the user's hash.
+#[derive(Clone, PartialEq, Eq, Debug)]
 struct Vs(u64);
+impl std::hash::Hash for Vs {
+    fn hash<H: std::hash::Hasher>(&self, state: &mut H) {
+        (self.0 % 3).hash(state)
+    }
+}
 impl VersionSet for Vs {
     type V = u64;
 }
-type P = Pool<Vs, String>;
+#[derive(Clone, PartialEq, Eq, Debug)]
+struct Nm(String);
+impl std::hash::Hash for Nm {
+    fn hash<H: std::hash::Hasher>(&self, state: &mut H) {
+        (self.0.len() % 2).hash(state)
+    }
+}
+impl std::ops::Deref for Nm {
+    type Target = String;
+    fn deref(&self) -> &String {
+        &self.0
+    }
+}
+type P = Pool<Vs, Nm>;
 
-fn name_str(v: u64) -> String {
-    format!("n{v}")
+fn name_str(v: u64) -> Nm {
+    Nm(format!("n{v}"))
 }
 fn str_str(v: u64) -> String {
     format!("s{v}")
@@ -33,7 +53,7 @@ fn num_of(s: &str) -> u64 {
 
 /// A reference obtained from the pool, kept across later insertions.
 enum Held<'a> {
-    Name(u32, &'a String, usize, usize),
+    Name(u32, &'a Nm, usize, usize),
     Str(u32, &'a str, usize),
     Vs(u32, &'a Vs, usize),
     Solv(u32, &'a NameId, &'a u64, usize),
@@ -68,7 +88,7 @@ impl<'a> Runner<'a> {
     fn addr(&self, k: &str, id: u32) -> (usize, usize) {
         let p = self.pool;
         match k {
-            "name" => (p.resolve_package_name(NameId(id)) as *const String as usize, std::mem::size_of::<String>()),
+            "name" => (p.resolve_package_name(NameId(id)) as *const Nm as usize, std::mem::size_of::<Nm>()),
             "str" => (p.resolve_string(StringId(id)).as_ptr() as usize, 0),
             "vs" => (p.resolve_version_set(VersionSetId(id)) as *const Vs as usize, std::mem::size_of::<(NameId, Vs)>()),
             "solv" => {
@@ -146,7 +166,7 @@ impl<'a> Runner<'a> {
                 let (a, _) = self.addr(k, id);
                 let (h, v) = match k {
                     "name" => {
-                        let r: &'a String = p.resolve_package_name(NameId(id));
+                        let r: &'a Nm = p.resolve_package_name(NameId(id));
                         (Held::Name(id, r, a, r.as_ptr() as usize), vec![num_of(r)])
                     }
                     "str" => {
@@ -177,7 +197,7 @@ impl<'a> Runner<'a> {
                 let (same, v) = match &self.held[h] {
                     Held::Name(id, r, a, heap) => {
                         let now = self.addr("name", *id).0;
-                        (now == *a && (*r as *const String as usize) == *a && r.as_ptr() as usize == *heap, vec![num_of(r)])
+                        (now == *a && (*r as *const Nm as usize) == *a && r.as_ptr() as usize == *heap, vec![num_of(r)])
                     }
                     Held::Str(id, r, a) => (self.addr("str", *id).0 == *a && r.as_ptr() as usize == *a, vec![num_of(r)]),
                     Held::Vs(id, r, a) => (self.addr("vs", *id).0 == *a && (*r as *const Vs as usize) == *a, vec![r.0]),
